@@ -2,6 +2,7 @@
 # seed_regression.sh: apply every kept seeded change to the repository in turn, run the quick tier of the
 # first check listed under caught_by in its meta.json, and confirm that it reports a VIOLATION; the change is
 # undone straight afterwards. Summary in seeded/regression.txt. The repository must be clean and idle.
+# REG_FILTER (default C*-r*) is a glob over the seed directories, e.g. "C*-r6" or "C14-r*".
 # REG_REPO (default /repo) names the repository copy to patch; with another copy (a scratch worktree) the
 # harness of this directory must depend on that copy (harness/Cargo.toml path) and VERIF_REPO is exported.
 set -u
@@ -10,7 +11,7 @@ cd "$here" || exit 2
 repo="${REG_REPO:-/repo}"
 export VERIF_REPO="$repo"
 out=seeded/regression.txt; : > $out
-for d in seeded/C*-r*/; do
+for d in seeded/${REG_FILTER:-C*-r*}/; do
   id=$(basename $d)
   chk=$(python3 -c "import json;print(json.load(open('$d/meta.json'))['caught_by'][0])")
   if [ -n "$(git -C "$repo" status --porcelain)" ]; then echo "$repo not clean"; exit 2; fi
